@@ -1043,6 +1043,12 @@ func (index *ValidatorIndex) DecodeRLP(s *rlp.Stream) error {
 	if err := s.Decode(&list); err != nil {
 		return err
 	}
+	// EncodeRLP writes the addresses strictly increasing
+	for i := 1; i < len(list); i++ {
+		if !list.Less(i-1, i) {
+			return fmt.Errorf("rlp: validator index is not strictly increasing at position %d", i)
+		}
+	}
 	for _, addr := range list {
 		index.data.Store(addr, nil)
 	}
